@@ -21,7 +21,7 @@ type C10Req struct {
 	Kind      string `json:"kind"` // origin | hash | empty | raw
 	OriginSel int    `json:"origin_sel,omitempty"`
 	AmountSel int    `json:"amount_sel,omitempty"`
-	HashSel   int    `json:"hash_sel,omitempty"` // 0 known 1 unknown 2 empty 3 oversized
+	HashSel   int    `json:"hash_sel,omitempty"` // 0 known 1 unknown 2 empty (present, zero length) 3 oversized 4 short prefix of a known hash 5 known hash plus one byte 6 absent (nil)
 	HashAt    int    `json:"hash_at,omitempty"`
 	Raw       []byte `json:"raw,omitempty"`
 }
@@ -42,7 +42,7 @@ func genC10Req(t *rapid.T) C10Req {
 	switch rapid.IntRange(0, 9).Draw(t, "kind") {
 	case 0:
 		r.Kind = "hash"
-		r.HashSel = rapid.IntRange(0, 3).Draw(t, "hashsel")
+		r.HashSel = rapid.IntRange(0, 6).Draw(t, "hashsel")
 		r.HashAt = rapid.IntRange(0, 200).Draw(t, "hashat")
 		r.AmountSel = rapid.IntRange(0, c10AmountSels-1).Draw(t, "amount")
 	case 1:
@@ -242,9 +242,17 @@ func (r C10Req) build(chain *vh.Chain, tail, head uint64) (*p2p_pb.HeaderRequest
 				boundary = true
 			}
 		case 2:
-			h = nil
-		default:
+			h = []byte{} // present on the wire with length 0
+		case 3:
 			h = make([]byte, 5000)
+		case 4:
+			k := chain.At(tail + uint64(r.HashAt)%(head-tail+1)).Hash()
+			h = append([]byte{}, k[:1+r.HashAt%(len(k)-1)]...)
+			boundary = true
+		case 5:
+			h = append(append([]byte{}, chain.At(tail+uint64(r.HashAt)%(head-tail+1)).Hash()...), 0)
+		default:
+			h = nil // gogo does not put a nil oneof value on the wire: the request arrives without data
 		}
 		return &p2p_pb.HeaderRequest{Data: &p2p_pb.HeaderRequest_Hash{Hash: h}, Amount: c10Amount(r.AmountSel)}, nil, boundary
 	case "empty":
@@ -360,6 +368,7 @@ func FuzzC10Request(f *testing.F) {
 		}
 	}
 	seed(&p2p_pb.HeaderRequest{Data: &p2p_pb.HeaderRequest_Hash{Hash: []byte("nope")}, Amount: 1})
+	seed(&p2p_pb.HeaderRequest{Data: &p2p_pb.HeaderRequest_Hash{Hash: []byte{}}, Amount: 1})
 	seed(&p2p_pb.HeaderRequest{Amount: 3})
 	f.Add([]byte{})
 	f.Add([]byte{0xff, 0xff, 0xff, 0xff, 0x0f})
